@@ -14,9 +14,12 @@ Decided on the real MIR:
  (C) `ReadStream::read_exact` (props/c14_read.py): data is delivered completely and in order (cached rest of a frame
      first, a frame dropped only when fully consumed — which is also when its read permit is released), end-of-stream is
      sticky at CLOSE and a read never continues past it.
-NOT decided (outside the claim): everything that depends on the interplay of tasks — the OPEN/CLOSE handshake and lock
-hand-over between transient streams (reusable_stream.rs), write-side framing and flushing, ordering across the writer
-task, and the buffer bound under a peer that ignores flow control over many frames."""
+ (D) one cycle of `ReusableStream::run` (props/c14_reusable.py, scope sequentialised): CLOSE is sent before a sub-stream
+     is reused, an accept-side stream sends OPEN only after the peer's OPEN arrived, the transient stream is handed to the
+     application exactly once and only after OPEN was sent and received, one limiter permit is held across the cycle.
+NOT decided (outside the claim): everything that depends on the interplay of tasks — lock hand-over between consecutive
+transient streams under real scheduling, write-side framing and flushing, ordering across the writer task, and the
+buffer bound under a peer that ignores flow control over many frames."""
 import time
 import z3
 from mirsym.core import (Exec, explore, solve, Num, Agg, Ref, Cell, Opaque, Unmodelled, BoundExceeded, num_cmp, to_z3_bool, UNIT)
@@ -271,6 +274,11 @@ def run(rep, db, tier, seed):
             rep.add(Obligation(name, 'inconclusive', f'{type(u).__name__}: {u}'[:700]))
     handle('stream-count negotiation (Mux::spawn_streams)', check_spawn)
     handle('inbound frame step (Mux::process_inbound_frames): isolation, piece sizes, intake flow control', check_dispatch)
+    try:
+        from props import c14_reusable
+        c14_reusable.run(rep, db, tier)
+    except Exception as u:
+        rep.add(Obligation('ReusableStream::run', 'inconclusive', f'{type(u).__name__}: {u}'[:600]))
     try:
         from props import c14_read
         c14_read.run(rep, db, tier)
